@@ -38,7 +38,8 @@ Inv4(c, a, R) ==
 
 Holds(c, a, P) ==
   CASE a.kind = "sym"  -> FxMatSym(c.tensors[a.t], a.tol)
-    [] a.kind = "inv4" -> \A R \in P : Inv4(c, a, R)
+    [] a.kind = "bits" -> a.s1 = a.s2         \* bit patterns (hex strings of the IEEE-754 bytes) are identical
+    [] a.kind = "inv4" ->\A R \in P : Inv4(c, a, R)
     [] a.kind = "inv"  -> \A R \in P : FxMatInv(R, c.tensors[a.t], a.tol)
     [] a.kind = "zero" -> FxMatAbsLe(Comb(c, a), a.tol)
     [] a.kind = "psd"  -> LET m == Comb(c, a) IN
